@@ -435,4 +435,56 @@ inline void publisher_two_publishers(const vf::opts &o, vf::report &R, vf::team 
     }
 }
 
+
+// ---------------------------------------------------------------------------------------------
+// Bounded publisher with heap-backed values (std::string), a publisher thread that runs ahead and a subscriber thread that keeps
+// reading at the TAIL EDGE of the retention window: whenever it is max-1 values behind, the next publish trims exactly the value it is
+// fetching. The value handed to the subscriber must be complete (well-formed text, ids strictly increasing); end-of-stream for having
+// fallen behind is legitimate at any time. Under TSan / ASan a value fetched outside the publisher's lock shows as a race with its
+// destruction / a use after free.
+inline void publisher_lag_mt(const vf::opts &o, vf::report &R, vf::team &T, uint64_t rounds) {
+    vf::rng master(vf::mix(o.seed, 0x16a9));
+    if (T.n < 2) return;
+    for (uint64_t rn = 0; rn < rounds && R.nviol() < 5; rn++) {
+        uint64_t rseed = master.next(); vf::rng r(rseed);
+        size_t maxlen = 1 + r.below(4); int n = 8 + (int)r.below(40); int mode = (int)r.below(2);
+        std::string desc = "max=" + std::to_string(maxlen) + " values=" + std::to_string(n) + (mode ? " skip_if_behind" : " all_values");
+        vf::set_crash_ctx(R.prop.c_str(), "publisher_lag_mt", o.seed, rn, desc.c_str());
+        std::string err; int received = 0; bool edge = false;
+        {
+            cocls::publisher<std::string> pub(maxlen, 1);
+            std::optional<cocls::subscriber<std::string>> sub; sub.emplace(pub, mode ? cocls::subscribtion_type::skip_if_behind : cocls::subscribtion_type::all_values);
+            T.round([&](int tid) {
+                vf::start_offset(rseed, tid);
+                if (tid == 0) {
+                    for (int i = 1; i <= n; i++) { pub.publish("v-" + std::to_string(i) + "-this text is long enough to live in a heap block of its own"); if ((i & 3) == 0) for (int k = 0; k < (int)(rseed % 200); k++) vf::cpu_relax(); }
+                    pub.close();
+                } else if (tid == 1) {
+                    long last = 0;
+                    for (;;) {
+                        bool b = sub->next();
+                        if (!b) break;
+                        std::string v = sub->value();
+                        received++;
+                        long id = 0; size_t p2 = v.find('-', 2);
+                        if (v.size() < 50 || v.compare(0, 2, "v-") != 0 || p2 == std::string::npos || v.compare(p2, std::string::npos, "-this text is long enough to live in a heap block of its own") != 0) { err = "subscriber received a damaged value (" + std::to_string(v.size()) + " chars)"; break; }
+                        id = atol(v.c_str() + 2);
+                        // (skip_if_behind: a clamped read may legitimately hand out the same newest value again - values never go backwards)
+                        if (mode == 1 ? id < last : id <= last) { err = "values went backwards / repeated (" + std::to_string(last) + " then " + std::to_string(id) + ")"; break; }
+                        if (id > last + 1 && mode == 0 && last != 0) { err = "all_values subscriber skipped from " + std::to_string(last) + " to " + std::to_string(id); break; }
+                        last = id;
+                    }
+                    sub.reset();
+                }
+            });
+            edge = received > 0 && received < n;
+        }
+        R.cases++;
+        if (!err.empty()) { R.violation("monitor:stream|publisher_lag_mt", err, vf::jobj().kv("round", (unsigned long long)rn).kv("seed", (unsigned long long)o.seed).kv("desc", desc).str()); continue; }
+        R.nontrivial_cases++;
+        R.sig(desc + " received=" + std::to_string(received));
+        if (edge) R.cls("rounds_in_which_the_subscriber_fell_off_the_retention_window");
+    }
+}
+
 } // namespace scn
